@@ -1,16 +1,32 @@
 (* C05 — BGP: each peer is offered exactly the intended routes and attributes.
-   Statements only; proofs in Proofs/BgpAdsP.v (current code) and
-   Proofs/BgpAdsPrefix.v (the code before the F12 fix).
-   [brun me evs] is the bgpController of node [me] after the event list [evs]
-   (SetBalancer / DeleteBalancer / SetConfig / SetNode, any order, any length);
-   [ps_sess q = Some l]: peer q has a live session whose last Set was l.
-   announced_as / intended / svc_prefix / session_expected are defined on the
-   event list alone (Model/BgpAds.v, "statement's vocabulary"). *)
+   Statements only; proofs in Proofs/BgpAdsP.v (current code) and Proofs/BgpAdsPrefix.v (the code before
+   the F12 fix).
+
+   SCOPE / what is and is not modelled.
+   * [brun me evs] is the bgpController of node [me] after the event list [evs] (SetBalancer /
+     DeleteBalancer / SetConfig / SetNode, any order, any length); [ps_sess q = Some l]: peer q has a live
+     session whose last Set argument list was l.  Which pool's advertisements a Service gets
+     (speaker/main.go) is a parameter of the event here; it is covered by C10_session_routes_iff_partial.
+   * Route sets are compared AS SETS ([In ad l <-> ...]).  "Equal aggregates are one route" holds only in
+     that sense: the list passed to Session.Set repeats an aggregate produced twice, and the same prefix with
+     different attributes stays two routes (C05_equal_aggregates_repeat_in_the_list,
+     C05_same_prefix_different_attributes_two_routes); compaction is left to the session implementations
+     (C14 / C16).
+   * ALL session-manager calls succeed: NewSession / Session.Set / Close failures, SyncBFDProfiles and
+     SyncExtraInfo errors (SetConfig returning after the peers were replaced) are NOT modelled.  A removed
+     peer's session is closed by dropping it from the list (a leaked session is inexpressible in the model;
+     the harness checks it).  Node selectors are matchLabels lists (no matchExpressions); communities are a
+     canonical list (Go sorts a set); aggregation lengths are within the address width (C08).
+   * [ps_made] is a ghost field set where the model opens a session; the theorems about it are close to
+     definitional inside the model - their weight is the correspondence (`o_made`: the arguments of
+     NewSession observed on the real controller at every step).
+   announced_as / intended / svc_prefix / session_expected are defined on the event list alone
+   (Model/BgpAds.v, "statement's vocabulary"). *)
 From Coq Require Import List NArith.
 From Verif Require Import Model.BgpAds Proofs.BgpAdsP Proofs.BgpAdsPrefix.
 Local Open Scope N_scope.
 
-(* every live session is offered exactly: for each announced service, each of
+(* AS A SET, every live session is offered exactly: for each announced service, each of
    its addresses, each advertisement selecting this node and naming the peer
    (or naming nobody), the address truncated to the aggregation length with
    that advertisement's local preference and communities *)
@@ -71,6 +87,17 @@ Theorem C05_peers_for_service_exact : forall me evs svc p,
   exists q l, In q (bs_peers (brun me evs)) /\ pc_name (ps_cfg q) = p /\ ps_sess q = Some l /\
               exists ad, In ad l /\ svc_prefix me evs svc (ad_pfx ad).
 Proof. exact peers_for_service_exact. Qed.
+
+(* "one route": the list repeats an aggregate produced by two Services; it is one route as a set element *)
+Theorem C05_equal_aggregates_repeat_in_the_list :
+  exists ad, sess_of (brun 0 (one_route_hist 100 100)) 1 = Some [ad; ad].
+Proof. exact equal_aggregates_repeat_in_the_list. Qed.
+
+(* ... and the same prefix with different attributes is two routes ("one route per prefix" refuted) *)
+Theorem C05_same_prefix_different_attributes_two_routes :
+  exists a1 a2, sess_of (brun 0 (one_route_hist 100 200)) 1 = Some [a1; a2] /\
+                ad_pfx a1 = ad_pfx a2 /\ ad_lp a1 <> ad_lp a2.
+Proof. exact same_prefix_different_attributes_two_routes. Qed.
 
 (* F12 (fixed by 25c43b3): on the model of the code before the fix a closed session stays reported *)
 Theorem C05_peers_for_service_exact_prefix_refuted :
